@@ -1211,12 +1211,15 @@ class cls_mn(with_metaclass(metamn, object)):
             c.reset_class()
             c.mode = mode
 
-            if not c.add_pre_dis_info(pre_dis_info):
+            # each candidate gets its own copy: a class may adjust the prefix
+            # information (x86 mandatory 66) before it rejects the bytes
+            cand_info = dict(pre_dis_info)
+            if not c.add_pre_dis_info(cand_info):
                 continue
 
             todo = {}
             getok = True
-            fname_values = dict(pre_dis_info)
+            fname_values = dict(cand_info)
             offset_b = offset * 8
 
             total_l = 0
